@@ -25,8 +25,21 @@ ASSUMPTIONS = [
     "profit factor conventions as documented on ProfitFactor::calculate: none when gross profit and gross loss are both "
     "zero, Decimal::MAX with profits and no losses, Decimal::MIN with losses and no profits",
     "win rate / profit factor compared up to decimal rounding (1e-18 relative); PnL exactly representable",
-    "instrument sheets are compared on pnl, win_rate, profit_factor, pnl_return, sharpe_ratio, sortino_ratio, calmar_ratio; "
-    "asset sheets (which report no ratio figure) on balance_end (drawdown fields: C18)",
+    "instrument sheets are compared on pnl, win_rate, profit_factor, pnl_return, sharpe_ratio, sortino_ratio, calmar_ratio, and the "
+    "running returns summaries of their generator (PnLReturns.total / .losses: count, sum, mean to 1e-18 relative; variance in the "
+    "ratio domain); asset sheets (which report no ratio figure) on balance_end = the (total, free) pair of the last accepted "
+    "snapshot and on WHICH accepted snapshot is the last point of the equity curve (the clock of the asset's drawdown generator; "
+    "the other drawdown fields: C18)",
+    "balance snapshots: total and free move independently (only free, only total, both, neither); every snapshot delivered is an "
+    "ACCEPTED one (the exchange times of an asset increase: freshness is C09's subject); the engine route delivers it as a "
+    "BalanceSnapshot or inside a full AccountSnapshot",
+    "closed positions are delivered in ANY order of their exit times (late exits: behind a later exit of the same instrument, also "
+    "before the start of the session); PnL, win rate, profit factor and the returns summaries are functions of the multiset of "
+    "(pnl, cost) and must not notice. Left open by the specification for a history with a late exit (spec/Stats.tla, 'ratio figures', "
+    "points 4 and 5; nothing is open without one): the END of the trading period - the exit delivered last (what the code stamps) or "
+    "the latest exit delivered (the engine clock its doc comment names never moves back) - and the PnL curve under Calmar's drawdown "
+    "- in the order delivered or in the order of the exit times; one reading per generated sheet (TLC lists the sheets of all readings "
+    "that differ, the harness accepts a sheet that is one of them as a whole)",
     "ratio figures: TLC gives every figure in squared, factored form <<k, sign, sq, fac>> (value = sign * sqrt(sq * fac), sq and "
     "fac exact fractions, fac = target interval / trading period in seconds); the harness compares the Decimal with "
     "sign * sqrt(sq * fac) within 1e-12 relative (the code itself takes decimal square roots: rust_decimal's sqrt is "
@@ -36,9 +49,9 @@ ASSUMPTIONS = [
     "scaled DOWN may be the sentinel or any value of its sign from the product upwards; zero risk with excess exactly zero in "
     "a history of three or more positions (decimal rounding of the running mean decides); Calmar when the PnL curve "
     "declines from a running maximum that is not positive (C18 defines drawdowns for positive peaks only)",
-    "ratio figures: exit times are whole seconds, non-decreasing per instrument; the trading period runs from the start of the "
+    "ratio figures: exit times are whole seconds; the trading period runs from the start of the "
     "instrument's session (TearSheetGenerator::init / reset, the engine state's time_engine_start) to its latest exit, at "
-    "least one second; risk-free returns are finite decimals (0, 1/10, -1/10, 1/20); returns of the behaviours with ratio "
+    "least one second (an exit before the session start: one second); risk-free returns are finite decimals (0, 1/10, -1/10, 1/20); returns of the behaviours with ratio "
     "figures are finite decimals (costs 4, 5, 10, 20); wide behaviours (PnL up to 300, costs 3..25) carry no ratio figures "
     "because their squares exceed TLC's 32-bit integers",
     "summary mode: the risk-free return is the public field TradingSummaryGenerator.risk_free_return that init() sets; the "
@@ -46,8 +59,11 @@ ASSUMPTIONS = [
     "engine mode: consecutive closed positions of one instrument are chained, where the numbers allow it exactly, by CROSSING "
     "fills (the closing fill is over-sized and opens the next position on the other side: long->short->long..); the position "
     "closed by such a fill belongs to the instrument's history like any other",
-    "direct / summary modes: exit times are non-decreasing per instrument only - across instruments they may be equal or "
-    "reported late (behind another key's exit, a balance update or TradingSummaryGenerator::update_time_now)",
+    "direct / summary modes: exits may also be equal or late ACROSS instruments (behind another key's exit, a balance update or "
+    "TradingSummaryGenerator::update_time_now: the summary generator's own clock only moves forwards and is not what a sheet's "
+    "period ends at)",
+    "engine mode: a late exit is a closing Trade whose time_exchange is older than an earlier fill's (the position code stamps "
+    "time_exit from the closing trade); all fills of a closed position carry the exit time the behaviour names",
     "the tear-sheet generators are serialisable: a serde_json store/restore of every running generator between two events "
     "(spec action Persist, a stutter) must leave the generated summary, now and later, unchanged",
     "engine mode: producing the closed position from fills is C02's subject - a deviation there is a tool error, not a C16 verdict",
@@ -77,7 +93,7 @@ def history(scn, upto):
         elif e["a"] == "Reset":
             h.setdefault(e["k"], []).append("reset()")
         elif e["a"] == "AddBalance":
-            h.setdefault(e["k"], []).append(e["x"])
+            h.setdefault(e["k"], []).append("%s/%s free" % (e["x"], e["y"]))
     return h
 
 
@@ -90,7 +106,7 @@ def judge(ctx, results, scns, label, counts):
         sig = signature(r)
         counts.setdefault(sig, {}).setdefault(r.get("mode"), 0)
         counts[sig][r.get("mode")] += 1
-        desc = "histories (pnl/cost@exit time per closed position, balances) %s: after event #%d %s the generated summary has %s; summary before: %s [mode %s, scale 1e%s, %s]" % (
+        desc = "histories (pnl/cost@exit time per closed position in the order delivered, balance snapshots total/free) %s: after event #%d %s the generated summary has %s; summary before: %s [mode %s, scale 1e%s, %s]" % (
             json.dumps(history(scn, r["step"])), r["step"] + 1, json.dumps(r["event"]), r["error"],
             json.dumps(r["pre"].get("instruments", r["pre"].get("ratio_figures_now")) if isinstance(r["pre"], dict) else r["pre"]),
             r.get("mode"), r.get("variant", {}).get("e10"), label)
@@ -101,6 +117,48 @@ def corrupt(scn):
     e = scn["evs"][0]["exp"]["instruments"]
     k = sorted(e)[0]
     e[k]["pnl"]["n"] += e[k]["pnl"]["d"]            # PnL + 1
+
+
+def corrupt_free(scn):
+    """the first asset sheet with a balance: its free part + 1 (the total untouched)"""
+    for e in scn["evs"]:
+        for k in sorted(e["exp"]["assets"]):
+            a = e["exp"]["assets"][k]
+            if isinstance(a, dict):
+                a["free"] += 1
+                return
+    raise vlib.ToolError("binding self-test: no balance in the chosen scenario")
+
+
+def corrupt_points(scn):
+    """the last asset sheet with two or more snapshots: the equity curve one point shorter"""
+    for e in reversed(scn["evs"]):
+        for k in sorted(e["exp"]["assets"]):
+            a = e["exp"]["assets"][k]
+            if isinstance(a, dict) and a["points"] >= 2:
+                a["points"] -= 1
+                return
+    raise vlib.ToolError("binding self-test: no asset with two snapshots in the chosen scenario")
+
+
+def corrupt_returns(scn):
+    """the returns summary after the last event: one position fewer"""
+    r = scn["evs"][-1]["exp"]["returns"]
+    k = max(r, key=lambda k: r[k]["count"])
+    r[k]["count"] -= 1
+
+
+def corrupt_late(scn):
+    """the last sheet for which the specification lists several readings (late exits): the rate of return tripled on
+    EVERY reading (whichever reading the implementation follows, no listed sheet is its sheet any more)"""
+    for e in reversed(scn["evs"]):
+        for k in sorted(e["ratios"]["instruments"]):
+            sh = e["ratios"]["instruments"][k]
+            if sh["alt"] and sh["pnl_return"][0] != 0:
+                for reading in [sh] + sh["alt"]:
+                    reading["pnl_return"][0] *= 3
+                return
+    raise vlib.ToolError("binding self-test: no sheet with several readings and a non-zero rate of return in the chosen scenario")
 
 
 def corrupt_ratio(scn):
@@ -120,6 +178,29 @@ TABLE_ROWS = (["sharpe_ratio:zero_std_dev:%s" % x for x in ("pos", "neg", "zero"
               + ["calmar_ratio:zero_drawdown:%s" % x for x in ("pos", "neg", "zero")] + ["calmar_ratio:num", "calmar_ratio:undefined_drawdown"]
               + ["%s:%s" % (k, d) for k in ("num", "MAX", "MIN", "any") for d in ("up", "same", "down") if (k, d) != ("any", "same")]
               + ["zero_excess:exact", "zero_excess:open"])
+
+
+def late_coverage(scns):
+    """No vacuity: what the TLC-generated behaviours contain of late exits and of the readings the specification leaves
+    open for them (flags and alternatives are computed by TLC from the specification)."""
+    c = {"closed_positions": 0, "late_exits": 0, "exits_before_session_start": 0, "behaviours_with_a_late_exit": 0,
+         "sheets_with_ratio_figures": 0, "sheets_with_several_readings": 0, "sheets_after_a_late_exit_with_one_reading": 0,
+         "readings_listed_beside_the_code's": 0}
+    for scn in scns:
+        c["behaviours_with_a_late_exit"] += any(e.get("late") for e in scn["evs"])
+        for e in scn["evs"]:
+            if e["a"] == "AddClosed":
+                c["closed_positions"] += 1
+                c["late_exits"] += bool(e.get("late"))
+                c["exits_before_session_start"] += e["t"] < 0
+            r = e.get("ratios")
+            if isinstance(r, dict):
+                for sheet in r["instruments"].values():
+                    c["sheets_with_ratio_figures"] += 1
+                    c["sheets_with_several_readings"] += bool(sheet["alt"])
+                    c["sheets_after_a_late_exit_with_one_reading"] += bool(sheet["late"] and not sheet["alt"])
+                    c["readings_listed_beside_the_code's"] += len(sheet["alt"])
+    return c
 
 
 def table_coverage(scns):
@@ -142,31 +223,52 @@ def table_coverage(scns):
     return seen
 
 
+def files_by_label(files):
+    return [(label, scns) for label, _, scns in files]
+
+
+def in_parallel(jobs):
+    """run the callables beside one another; results in order; the first exception is re-raised in the caller"""
+    out, err = [None] * len(jobs), []
+
+    def run(k, job):
+        try:
+            out[k] = job()
+        except BaseException as e:      # noqa: B902 - re-raised in the main thread
+            err.append(e)
+    ts = [threading.Thread(target=run, args=(k, j)) for k, j in enumerate(jobs)]
+    for t in ts:
+        t.start()
+    for t in ts:
+        t.join()
+    if err:
+        raise err[0]
+    return out
+
+
 def check(ctx):
     ctx.assumptions += ASSUMPTIONS
     ctx.build("c16")
-    # (-coverage makes TLC several times slower here: vacuity is checked on the small configuration)
-    # the model checking (action coverage of the small model; the two exhaustive models: sheets, ratio laws over
-    # the histories of one instrument) does not depend on the replays: it runs beside them (a failure is
-    # re-raised when the two are joined)
-    mc_error = []
+    # (-coverage makes TLC several times slower here: vacuity is checked on the small configurations)
+    # the model checking does not depend on the replays: it runs beside them, in two strands (a failure is re-raised
+    # when they are joined)
+    def sheets():
+        # the exhaustive model of the sheets (figures that never read a time)
+        ctx.tlc_mc("MC_" + MODULE, "MC_Stats_C16.cfg" if ctx.quick else "MC_Stats_C16_thorough.cfg", timeout=2400, coverage=False)
 
-    def model_check():
-        try:
-            ctx.tlc_actions("MC_" + MODULE, "MC_Stats_C16_small.cfg", ["AddClosedAny", "AddBalanceAny", "GenerateAny", "PersistAny", "ResetAny"])
-            ctx.tlc_mc("MC_" + MODULE, "MC_Stats_C16.cfg" if ctx.quick else "MC_Stats_C16_thorough.cfg", timeout=2400, coverage=False)
-            ctx.tlc_mc("MC_" + MODULE, "MC_Stats_C16_ratios.cfg" if ctx.quick else "MC_Stats_C16_ratios_thorough.cfg", timeout=2400,
-                       coverage=False, workers=4 if ctx.quick else None)
-        except BaseException as e:      # noqa: B902 - re-raised in the main thread
-            mc_error.append(e)
-    mc = threading.Thread(target=model_check)
-    mc.start()
-    try:
-        extra = replays(ctx)
-    finally:
-        mc.join()
-    if mc_error:
-        raise mc_error[0]
+    def small_and_ratios():
+        ctx.tlc_actions("MC_" + MODULE, "MC_Stats_C16_small.cfg", ["AddClosedAny", "AddBalanceAny", "GenerateAny", "PersistAny", "ResetAny"])
+        # the sheets with LATE exits (negative steps of the exit time) and Generate choosing a reading: every action taken
+        # there too (the dump run is a complete model check of that configuration with all its invariants and properties)
+        ctx.tlc_actions("MC_" + MODULE, "MC_Stats_C16_late.cfg", ["AddClosedAny", "GenerateAny", "PersistAny", "ResetAny"])
+        if not ctx.quick:
+            ctx.tlc_mc("MC_" + MODULE, "MC_Stats_C16_late_thorough.cfg", timeout=1200, coverage=False)
+        # balance snapshots whose total and free part move independently, three per run
+        ctx.tlc_actions("MC_" + MODULE, "MC_Stats_C16_bal.cfg", ["AddBalanceAny", "GenerateAny", "PersistAny"])
+        # the ratio laws over the histories of one instrument, late exits included
+        ctx.tlc_mc("MC_" + MODULE, "MC_Stats_C16_ratios.cfg" if ctx.quick else "MC_Stats_C16_ratios_thorough.cfg", timeout=2400,
+                   coverage=False, workers=4 if ctx.quick else None)
+    extra = in_parallel([lambda: replays(ctx), sheets, small_and_ratios])[0]
     return ctx.finish(extra=extra)
 
 
@@ -175,27 +277,48 @@ def replays(ctx):
     if not ctx.quick:
         gens.append(("enumerated-long", "GenT_Stats_C16_thorough.cfg", None))
     gens.append(("simulated", "GenR_Stats_C16.cfg", (400 if ctx.quick else 5000, 40)))
-    files = []
-    for label, cfg, sim in gens:
+    def gen(label, cfg, sim):
         p, scns = ctx.tlc_gen("Gen_" + MODULE, cfg, label + ".ndjson", simulate=sim, timeout=1200)
         if sim and len(scns) < 0.9 * sim[0]:
             # (TLC ends a simulation at the first evaluation error, e.g. an integer overflow of the exact fractions)
             raise vlib.ToolError("TLC simulation of %s ended early: %d of %d behaviours" % (cfg, len(scns), sim[0]))
-        files.append((label, p, scns))
+        return (label, p, scns)
+    files = in_parallel([lambda g=g: gen(*g) for g in gens])
     ctx.sample({"kind": "TLC enumerated history with the exact summary after every event", "scenario": files[0][2][len(files[0][2]) // 2]})
     ctx.sample({"kind": "TLC simulated behaviour (closed positions, balances, Generate)", "scenario": files[-1][2][0]})
     sc.selftest_binding(ctx, "c16", files[0][2][0], corrupt, ".pnl", ("--mode", "direct"))
     with_ratios = [s for s in files[0][2] if all(isinstance(e.get("ratios"), dict) for e in s["evs"])]
     sc.selftest_binding(ctx, "c16", with_ratios[len(with_ratios) // 2], corrupt_ratio, "sharpe_ratio", ("--mode", "direct"))
+    # ... the free part of a balance, the length of the equity curve, the returns summaries, and a sheet for which the
+    # specification lists several readings (late exits): a corruption must not be absorbed by another reading
+    with_bal = [s for s in files[-1][2] if any(isinstance(a, dict) and a["points"] >= 2 for e in s["evs"] for a in e["exp"]["assets"].values())]
+    if not with_bal:
+        raise vlib.ToolError("vacuous run: no simulated behaviour with two balance snapshots of one asset")
+    sc.selftest_binding(ctx, "c16", with_bal[0], corrupt_free, ".free", ("--mode", "engine"))
+    sc.selftest_binding(ctx, "c16", with_bal[-1], corrupt_points, ".points", ("--mode", "summary"))
+    sc.selftest_binding(ctx, "c16", files[0][2][len(files[0][2]) // 3], corrupt_returns, "returns", ("--mode", "engine"))
+    with_alt = [s for s in with_ratios if any(sh["alt"] and sh["pnl_return"][0] != 0 for e in s["evs"] for sh in e["ratios"]["instruments"].values())]
+    if not with_alt:
+        raise vlib.ToolError("vacuous run: no enumerated behaviour with several readings of a sheet (late exits)")
+    sc.selftest_binding(ctx, "c16", with_alt[len(with_alt) // 2], corrupt_late, "pnl_return", ("--mode", "summary"))
+    late = {label: late_coverage(scns) for label, _, scns in files}
+    for label, c in late.items():
+        if not all(c[k] for k in ("late_exits", "exits_before_session_start", "sheets_with_several_readings")) and label != "replay":
+            raise vlib.ToolError("vacuous run: the %s behaviours contain no late exits / no sheet with several readings: %s" % (label, c))
+        # (without a late exit nothing is open: at least a third of the behaviours stay that way)
+        if c["behaviours_with_a_late_exit"] > (0.9 if label == "enumerated-long" else 0.7) * len(dict(files_by_label(files))[label]):
+            raise vlib.ToolError("the %s behaviours are dominated by late exits: %s" % (label, c))
+    ctx.cov["late_exits_in_generated_behaviours"] = late
     rows = table_coverage(files[0][2])
     missing = [r for r in TABLE_ROWS if not rows.get(r)]
     if missing:
         raise vlib.ToolError("vacuous run: rows of the ratio convention tables never met by the enumerated behaviours: %s" % missing)
     ctx.cov["ratio_table_rows_in_enumerated_behaviours"] = rows
     counts, arms, ratio = {}, {}, {}
-    for mode in MODES:
-        for label, p, scns in files:
-            info, results = sc.run_replay(ctx, "c16", p, "%s_%s" % (label, mode), ("--mode", mode))
+    # (the three routes are independent processes: beside one another)
+    runs = in_parallel([lambda m=m: [sc.run_replay(ctx, "c16", p, "%s_%s" % (label, m), ("--mode", m)) for label, p, _ in files] for m in MODES])
+    for mode, per_file in zip(MODES, runs):
+        for (label, p, scns), (info, results) in zip(files, per_file):
             judge(ctx, results, scns, label, counts)
             ctx.cov["scenarios_replayed"] += len(scns)
             for k, v in info.get("arm_hits", {}).items():
@@ -208,7 +331,11 @@ def replays(ctx):
     # (runs cut short by a violation exercise fewer arms: vacuity is only judged on a clean run)
     if not ctx.violations and not all(arms.get(k) for k in ("win", "loss", "break_even", "balance", "generate_event", "keyed_by_name",
                                                             "crossing_fill", "equal_exit_time", "late_reported_exit", "clock_update", "store_restore",
-                                                            "reset", "sheets_with_ratio_figures")):
+                                                            "reset", "sheets_with_ratio_figures",
+                                                            "late_exit_behind_a_later_exit_of_the_same_instrument", "exit_before_session_start",
+                                                            "balance_only_free_moved", "balance_only_total_moved", "balance_both_moved",
+                                                            "balance_repeated_unchanged", "balance_inside_full_account_snapshot",
+                                                            "sheets_with_more_than_one_reading")):
         raise vlib.ToolError("vacuous run: a kind of event was never replayed: %s" % arms)
     if not all(ratio.get(k) for k in ("compared", "left_open_by_the_spec", "sentinel_scaled_down", "rescaled_with_scale()")):
         raise vlib.ToolError("vacuous run: the ratio figures were not all exercised: %s" % ratio)
